@@ -128,6 +128,15 @@ mod sharded_set;
 mod small_bytes;
 pub mod string;
 pub mod string_key;
+/// Verification-only synchronisation shims, see the module documentation.
+#[cfg(feature = "isographlabs_isograph_verif")]
+pub mod verif_sync;
+/// Verification-only access to the arena underneath the intern tables.
+#[cfg(feature = "isographlabs_isograph_verif")]
+pub mod verif {
+    pub use crate::atomic_arena::AtomicArena;
+    pub use crate::atomic_arena::Ref;
+}
 #[doc(hidden)]
 pub use crate::atomic_arena::Zero;
 #[doc(inline)]
